@@ -1,3 +1,5 @@
 SPECIFICATION Spec
+CONSTANTS
+  Stratum = "all"
 INVARIANTS Inv_P1 Inv_P2 EmitCase
 CHECK_DEADLOCK FALSE
